@@ -435,6 +435,9 @@ func runGoMini(tw *TraceWriter, id int, c *Case) {
 		if t == ";" && (i == len(toks)-1 || toks[i+1] == "}" || toks[i+1] == ")") {
 			continue
 		}
+		if t == "," && i+1 < len(toks) && (toks[i+1] == "}" || toks[i+1] == ")") {
+			continue // a comma before a closing brace / parenthesis on a new line is optional (a multi-line Dict writes it)
+		}
 		norm = append(norm, t)
 	}
 	tw.Emit(Rec{"ev": "gomini", "id": id, "tree": c.Tree, "toks": c.Toks, "rtoks": norm, "rv": resRec(rv, rv)})
